@@ -11,7 +11,7 @@
    gh_cgdp, heur_comhost.  The must-host clause is FALSE of these three methods (they never
    read `hints`): [must_host_ignored_refuted].  The ILP-based methods are covered by
    Prop_C24 (feasible ILP solutions decode to valid mappings). *)
-From PyDcop Require Import Base M_Dist P_Dist M_Dist2 P_Dist2 M_Ilp P_Dist3.
+From PyDcop Require Import Base M_Dist P_Dist M_Dist2 P_Dist2 M_Ilp P_Dist3 P_Dist4 P_Dist5.
 From Coq Require Import Permutation.
 
 (* oneagent: not capacity-aware; additionally no agent hosts two computations *)
@@ -128,6 +128,40 @@ Theorem ilp_must_host_ignored_refuted :
   exists D, assigns_declared witness_mh D /\ fgdp_feasible G D = true /\ oilp_feasible G D = true /\
             ~ must_host_honoured witness_mh (decode witness_mh D).
 Proof. exact ilp_must_host_ignored_refuted_l. Qed.
+
+(* the executable validity test that the correspondence run (M_Dist2.guard_ok) applies to the
+   mapping OBSERVED from the implementation, whenever the guards above hold, is sound *)
+Theorem valid_b_sound : forall I m, valid_b I m = true ->
+  hosts_once I m /\ agents_declared I m /\ must_host_honoured I m /\ within_capacity I m.
+Proof. exact valid_b_sound_l. Qed.
+
+(* the backtracking of gh_cgdp / heur_comhost never succeeds (candidate lists of later levels
+   are not recomputed after a backtrack): both methods compute exactly the pure greedy
+   placement P_Dist5.greedy_nobt -- first level without a candidate = Impossible.  Allowed by
+   C23 (Impossible is a legal answer); the example shows an instance with a valid mapping,
+   found by a real backtracking search, on which both answer Impossible. *)
+Theorem heur_comhost_is_pure_greedy : forall cle I rnd, wf I -> caps_nonneg I ->
+  heur_comhost cle I rnd =
+  let '(todo, rnd') := sorted_levels (i_nodes I) rnd in greedy_nobt cle I [] (map fst todo) [] rnd'.
+Proof. exact heur_comhost_pure_greedy_l. Qed.
+
+Theorem gh_cgdp_is_pure_greedy : forall cle I rnd, wf I ->
+  gh_cgdp cle I rnd =
+  let fixed := fixed_mapping I in
+  if existsb (fun a => g_cap a <? fixed_load fixed (g_id a)) (i_agents I) then Impossible
+  else
+    let free := filter (fun nd => negb (mem_key Z.eqb (n_id nd) fixed)) (i_nodes I) in
+    let '(todo, rnd') := sorted_levels free rnd in
+    greedy_nobt cle I fixed (map fst todo) [] rnd'.
+Proof. exact gh_cgdp_pure_greedy_l. Qed.
+
+Example c23_greedy_gives_up :
+  let I := mkInst [mkNode 0 0 3 []; mkNode 1 0 2 []; mkNode 2 0 2 []]
+                  [mkAg 0 4 1 [] 1 []; mkAg 1 3 2 [] 1 []] [] 0 [] [] in
+  let cle := fun p q : Z * Z => snd p <=? snd q in
+  heur_comhost cle I [] = Impossible /\ gh_cgdp cle I [] = Impossible /\
+  valid_b I [(0, 1); (1, 0); (2, 0)] = true.
+Proof. vm_compute. auto. Qed.
 
 (* non-vacuity for adhoc: must-host + (non-SECP) host_with hints, tight capacities (strict `>`
    test), first attempt fails in the scoring loop, the retry with the second shuffle succeeds;
